@@ -20,7 +20,7 @@ import (
 	"github.com/elnosh/gonuts/cashu"
 )
 
-var crashProps = []string{"C07"}
+var crashProps = []string{"C07", "C15"}
 
 func init() {
 	register("mint-crash", crashProps,
@@ -291,6 +291,13 @@ func (e *schedEnv) runCrashPoint(cs crashCase, k int, fault bool) (reached bool,
 		if st == "ISSUED" && post.mintQ[id] != "ISSUED" {
 			verdict, what = "lost:issued-quote", "a quote that was ISSUED before the interruption is "+post.mintQ[id]
 		}
+	}
+	// durability of the interrupted operation's own answer: if it RETURNED signatures (the storage error came late, or
+	// was swallowed), they must be stored: restorable after the restart
+	if t.out != nil && isOk(t.out) && (b.kind == "swap" || b.kind == "mint") && e.restorable(b.outs) != len(b.outs) {
+		verdict, what = "lost:returned-signatures-not-restorable", "the request was answered with signatures, but after the restart they are not stored (restore returns nothing for them)"
+		c.MonitorFail("C15", fmt.Sprintf("C15/%s/%s/%s/returned-signatures-not-restorable", mode, cs.name, point),
+			fmt.Sprintf("%s of %s at %s: %s", mode, cs.name, point, what), s.replay())
 	}
 	ksAfter := s.keysetView()
 	if b.kind != "rotate" {
